@@ -9,6 +9,7 @@ from __future__ import annotations
 import hashlib
 import itertools
 import math
+import warnings
 
 import numpy as np
 
@@ -76,25 +77,66 @@ def ladder(pb: float) -> list[tuple[float, str, int]]:
     return pts
 
 
+STYLES = ("float", "npfloat", "ascending", "descending", "outwards")
+
+
+def style_of(o) -> tuple[str, bool]:
+    """How the ladder of oil o is handed to the library (deterministic in o): one Python-float call per pressure, one
+    numpy-scalar call per pressure (values taken from arrays / table rows), or one array call with the pressures in ascending,
+    descending (depletion) or bubble-point-outwards order; array styles of every other oil give the initial GOR as a Python int
+    (a whole number of scf/bbl, as in the docstrings)."""
+    h = int(round(o[0] * 977 + o[1] * 131 + o[2] * 10007 + o[3] * 17))
+    st = STYLES[h % len(STYLES)]
+    return st, bool(st in ("ascending", "descending", "outwards") and (h // len(STYLES)) % 2 == 0)
+
+
 def measure_ladder(o) -> dict:
-    """Evaluate the scalar branches of the library along the ladder of oil o = (T, API, gg, R)."""
+    """Evaluate the library along the ladder of oil o = (T, API, gg, R) in the call style style_of(o)."""
     oil = _oil()
     t, a, g, r = o
+    style, int_gor = style_of(o)
+    if int_gor:
+        r = int(round(r))   # a Python int
     pb = float(oil.pressure_bubblepoint_Standing(t, a, g, r))
     pts = ladder(pb)
+    ps = [p for p, _, _ in pts]
+    names = (("rs", oil.solution_gor_Standing), ("bo", oil.b_o_Standing), ("rho", oil.density_Standing),
+             ("mu", oil.viscosity_beggs_robinson), ("co", oil.oil_compressibility_undersat_Spivey))
+    vals: dict[str, list[float]] = {}
+    if style in ("float", "npfloat"):
+        conv = float if style == "float" else np.float64
+        tt = t if style == "float" else np.float64(t)
+        for nm, f in names:
+            vals[nm] = [float(f(tt, conv(p), a, g, r)) if (nm != "co" or side != "below") else math.nan for p, side, _ in pts]
+    else:
+        order = {"ascending": np.arange(len(ps)), "descending": np.arange(len(ps))[::-1],
+                 "outwards": np.argsort(np.abs(np.array(ps) - pb), kind="stable")}[style]
+        arr = np.array(ps, dtype=float)[order]
+        for nm, f in names:
+            try:
+                with warnings.catch_warnings():
+                    warnings.simplefilter("ignore")
+                    if nm == "mu":   # a scalar routine (the facade vectorises it): looped over the grid, elements are numpy scalars
+                        got = np.array([float(f(t, p, a, g, r)) for p in arr.copy()], dtype=float)
+                    else:
+                        got = np.asarray(f(t, arr.copy(), a, g, r), dtype=float)
+                if got.shape != arr.shape:
+                    raise ValueError(f"shape {got.shape} for {arr.shape}")
+            except Exception:  # noqa: BLE001  an array call that fails has no values: judged as not finite
+                got = np.full(len(ps), np.nan)
+            back = np.empty(len(ps))
+            back[order] = got
+            vals[nm] = [float(x) for x in back]
     rows = []
-    for p, side, k in pts:
-        rs = float(oil.solution_gor_Standing(t, p, a, g, r))
-        row = {"p": p, "side": side, "k": k, "rs": rs,
-               "bo": float(oil.b_o_Standing(t, p, a, g, r)),
-               "rho": float(oil.density_Standing(t, p, a, g, r)),
-               "mu": float(oil.viscosity_beggs_robinson(t, p, a, g, r))}
+    for i, (p, side, k) in enumerate(pts):
+        row = {"p": p, "side": side, "k": k, "rs": vals["rs"][i], "bo": vals["bo"][i], "rho": vals["rho"][i], "mu": vals["mu"][i]}
         if side == "below":
-            row["pb_of_rs"] = float(oil.pressure_bubblepoint_Standing(t, a, g, rs))
+            rs = row["rs"]
+            row["pb_of_rs"] = float(oil.pressure_bubblepoint_Standing(t, a, g, rs)) if math.isfinite(rs) else math.nan
         else:
-            row["co"] = float(oil.oil_compressibility_undersat_Spivey(t, p, a, g, r))
+            row["co"] = vals["co"][i]
         rows.append(row)
-    return {"oil": list(o), "pb": pb, "rows": rows}
+    return {"oil": [t, a, g, float(r)], "pb": pb, "rows": rows, "style": style, "int_gor": int_gor}
 
 
 # ---------------------------------------------------------------------------------------------------------
